@@ -33,7 +33,24 @@ using dbgroup::thread::IDManager;
 using HB = vshim::WeakPtr<size_t>;
 constexpr int kCap = DBGROUP_MAX_THREAD_NUM;
 constexpr size_t kInitial = EpochManager::kInitialEpoch;
-using Node = EpochManager::ProtectedNode;
+
+// ---- introspection of manager internals -------------------------------------------------------------------
+// The oracles need two things the public API does not offer without side effects: the list published for a given
+// epoch and the number of list nodes alive. Both are obtained through private names of the current source where
+// they exist; after a refactoring that renames them the harness falls back to name-independent means (a scan of
+// the manager object for the pointer to a live node-sized heap block) and, failing that, skips the checks that
+// need the missing information instead of failing to build. The evidence records the mode (INTROSPECTION).
+template <class M>
+constexpr size_t
+NodeSizeOf()
+{
+  if constexpr (requires { typename M::ProtectedNode; }) {
+    return sizeof(typename M::ProtectedNode);
+  } else {
+    return 0;
+  }
+}
+constexpr size_t kNodeSize = NodeSizeOf<EpochManager>();
 
 namespace
 {
@@ -177,10 +194,103 @@ AddResult(int tid, const char *f, ...)
   va_end(ap);
 }
 
-const std::vector<size_t> &
+bool
+IsNodeBlock(const vs::BlockInfo &bi)
+{
+  return bi.st == vs::B_LIVE && (kNodeSize != 0 ? bi.size == kNodeSize : bi.size >= 2048);
+}
+
+// head of the node chain without knowing the member's name: the manager object holds exactly one pointer
+// (plain or atomic) to the base of a live node block
+template <class M>
+void *
+ScanForHead(M *m)
+{
+  void *found = nullptr;
+  const auto *bytes = reinterpret_cast<const unsigned char *>(m);
+  for (size_t off = 0; off + sizeof(void *) <= sizeof(M); off += sizeof(void *)) {
+    void *cand = nullptr;
+    memcpy(&cand, bytes + off, sizeof cand);
+    if (cand == nullptr) continue;
+    auto bi = vs::BlockOf(cand);
+    if (IsNodeBlock(bi) && bi.base == cand) {
+      if (found != nullptr && found != cand) return nullptr;  // ambiguous
+      found = cand;
+    }
+  }
+  return found;
+}
+
+// 0: private names of the pinned source, 1: name-independent scan, 2: unavailable
+template <class M>
+const std::vector<size_t> *
+ListOfImpl(M *m, size_t epoch, int *mode)
+{
+  if constexpr (requires { M::ProtectedNode::GetProtectedEpochs(epoch, m->protected_lists_); }) {
+    *mode = 0;
+    return &M::ProtectedNode::GetProtectedEpochs(epoch, m->protected_lists_);
+  } else if constexpr (requires { typename M::ProtectedNode; }) {
+    using N = typename M::ProtectedNode;
+    if constexpr (requires(N * n) { N::GetProtectedEpochs(epoch, n).size(); }) {
+      auto *head = static_cast<N *>(ScanForHead(m));
+      if (head != nullptr) {
+        *mode = 1;
+        return &N::GetProtectedEpochs(epoch, head);
+      }
+    }
+    *mode = 2;
+    return nullptr;
+  } else {
+    *mode = 2;
+    return nullptr;
+  }
+}
+
+int g_introspection = 0;
+
+template <class M>
+constexpr int
+StaticIntrospectionMode()
+{
+  if constexpr (requires(M * m, size_t e) { M::ProtectedNode::GetProtectedEpochs(e, m->protected_lists_); }) {
+    return 0;
+  } else if constexpr (requires { typename M::ProtectedNode; }) {
+    if constexpr (requires(typename M::ProtectedNode * n, size_t e) { M::ProtectedNode::GetProtectedEpochs(e, n).size(); }) {
+      return 1;
+    } else {
+      return 2;
+    }
+  } else {
+    return 2;
+  }
+}
+constexpr const char *kIntrospectionNames[] = {"private names of the pinned source", "name-independent scan for the list head",
+                                                "unavailable: list-based oracles skipped, public observers only"};
+
+// name of an address inside the manager for traces (names of the pinned source where they exist, offsets otherwise)
+template <class M>
+std::string
+MemberName(M *m, const void *a)
+{
+  if constexpr (requires { &m->global_epoch_; &m->min_epoch_; &m->tls_fields_[0].epoch.entered_; }) {
+    if (a == &m->global_epoch_) return "global_epoch";
+    if (a == &m->min_epoch_) return "min_epoch";
+    for (int i = 0; i < kCap; ++i)
+      if (a == &m->tls_fields_[i].epoch.entered_) return "slot" + std::to_string(i) + ".entered";
+  }
+  const auto *lo = reinterpret_cast<const char *>(m);
+  const auto *p = static_cast<const char *>(a);
+  if (p >= lo && p < lo + sizeof(M)) return "manager+" + std::to_string(p - lo);
+  return "";
+}
+
+const std::vector<size_t> *
 ListOf(size_t epoch)
 {
-  return Node::GetProtectedEpochs(epoch, W->mgr->protected_lists_);
+  int mode = 0;
+  auto *l = ListOfImpl(W->mgr, epoch, &mode);
+  if (mode > g_introspection) g_introspection = mode;
+  return l;
 }
 
 std::string
@@ -194,7 +304,10 @@ ListStr(const std::vector<size_t> &v)
 size_t
 LiveNodes()
 {
-  return vs::LiveBlocksOfSize(sizeof(Node));
+  if (kNodeSize != 0) return vs::LiveBlocksOfSize(kNodeSize);
+  size_t n = 0;
+  vs::ForEachBlock([&](const vs::BlockInfo &bi) { n += IsNodeBlock(bi) ? 1 : 0; });
+  return n;
 }
 
 // checks after one complete ForwardGlobalEpoch by the coordinator (called inside NoSchedule)
@@ -205,13 +318,16 @@ AfterForward(int tid, size_t before, uint64_t start_stamp, bool quiet, bool indi
   if (cur != before + 1) {
     vs::Violate("C16", "EPOCH-STEP", Fmt("ForwardGlobalEpoch moved the global epoch from %zu to %zu", before, cur));
   }
-  const auto &list = ListOf(cur);
+  const auto *list_ptr = ListOf(cur);
+  static const std::vector<size_t> kNoList{};
+  const bool have_list = list_ptr != nullptr;
+  const auto &list = have_list ? *list_ptr : kNoList;
   const size_t mn = W->mgr->GetMinEpoch();
   // C04: every guard completely created before the call started and still alive is covered
   for (int t = 0; t < static_cast<int>(PROG.th.size()); ++t) {
     auto &g = GH->g[t];
     if (!g.alive || g.created_stamp >= start_stamp) continue;
-    bool in = false;
+    bool in = !have_list;
     for (auto e : list) in |= (e == g.epoch);
     if (!in) {
       vs::Violate("C04", "GUARD-NOT-PROTECTED",
@@ -220,6 +336,15 @@ AfterForward(int tid, size_t before, uint64_t start_stamp, bool quiet, bool indi
     if (mn > g.epoch) {
       vs::Violate("C04", "MIN-ABOVE-GUARD", Fmt("GetMinEpoch() = %zu exceeds epoch %zu pinned by T%d's live guard", mn, g.epoch, t));
     }
+  }
+  if (!have_list) {
+    // internals not reachable (see ListOfImpl): only the checks on the public observers remain
+    if (quiet && mn != cur - 1) {
+      vs::Violate("C16", "QUIESCENT-MIN", Fmt("no guard existed during the forward to %zu, yet GetMinEpoch() = %zu", cur, mn));
+    }
+    (void)tid;
+    (void)indivisible;
+    return;
   }
   // list shape (always): strictly descending, starts with the new epoch, contains the previous one
   bool desc = !list.empty() && list.front() == cur;
@@ -693,16 +818,17 @@ Digest()
       h = vs::Mix(h, 0xdead);
     }
   }
-  // plain (non-atomic) manager state that the atomics do not capture
-  if (W && W->mgr) {
-    for (int i = 0; i < kCap; ++i) {
-      h = vs::Mix(h, reinterpret_cast<uint64_t>(W->mgr->tls_fields_[i].heartbeat.c_));
-      h = vs::Mix(h, reinterpret_cast<uint64_t>(W->mgr->tls_fields_[i].epoch.current_));
-    }
-    for (auto *n = W->mgr->protected_lists_; n != nullptr; n = n->next) h = vs::Mix(h, n->upper_epoch_);
-    const size_t cur = W->mgr->global_epoch_.Raw();
-    h = vs::Mix(h, cur);
+  // plain (non-atomic) manager state that the atomics do not capture: the object representation of the manager
+  // (slot bindings, list head, ...; arena memory is pattern-filled before every execution, so padding is
+  // deterministic) and the set of live list nodes
+  for (auto *m : {W ? W->mgr : nullptr, W ? W->mgr2 : nullptr}) {
+    if (m == nullptr) continue;
+    const auto *words = reinterpret_cast<const uint64_t *>(m);
+    for (size_t i = 0; i < sizeof(EpochManager) / sizeof(uint64_t); ++i) h = vs::Mix(h, words[i]);
   }
+  vs::ForEachBlock([&](const vs::BlockInfo &bi) {
+    if (IsNodeBlock(bi)) h = vs::Mix(h, reinterpret_cast<uint64_t>(bi.base));
+  });
   return h;
 }
 
@@ -757,12 +883,11 @@ MakeScenario()
   s.deadlock_props = "C14,C16";  // only GetThreadID can wait; a coordinator stuck in it can never advance the epoch
   s.name_of = [](const void *a) -> std::string {
     if (!W || !W->mgr) return "";
-    if (a == &W->mgr->global_epoch_) return "global_epoch";
-    if (a == &W->mgr->min_epoch_) return "min_epoch";
     if (a == &W->turn) return "turn";
     if (GH && a == &GH->dummy) return "harness.point";
-    for (int i = 0; i < kCap; ++i) {
-      if (a == &W->mgr->tls_fields_[i].epoch.entered_) return Fmt("slot%d.entered", i);
+    {
+      std::string n = MemberName(W->mgr, a);
+      if (!n.empty()) return n;
     }
     auto bi = vs::BlockOf(a);
     if (bi.st != vs::B_NONE && bi.size == sizeof(vshim::Ctrl<size_t>)) return Fmt("heartbeat-ctrl[T%d]", bi.owner);
@@ -1067,7 +1192,8 @@ main(int argc, char **argv)
     for (auto &p : programs) jobs.push_back(vs::Job{p, ""});
     emit(vs::RunJobs(jobs, nproc, job_budget + 60, budget, run));
   }
-  fprintf(out, "{\"summary\":true,\"programs\":%zu,\"wall_s\":%.3f}\n", nprog, vs::Now() - t0);
+  fprintf(out, "{\"summary\":true,\"programs\":%zu,\"wall_s\":%.3f,\"introspection\":\"%s\"}\n", nprog, vs::Now() - t0,
+          kIntrospectionNames[StaticIntrospectionMode<EpochManager>()]);
   if (out != stdout) fclose(out);
   return rc;
 }
